@@ -274,7 +274,8 @@ Proof.
     + destruct (should_skip s sel sk); [eapply IH; eassumption|].
       destruct (sm_get_match (to_key sel) (t_reg s)) as [| |k [c|]]; try discriminate. eapply IH; eassumption.
     + destruct (str_in m (e_modules env)).
-      * destruct (IH _ _ _ _ _ _ Hrest H) as [A B]. subst im1. rewrite <- app_assoc. auto.
+      * destruct (register_mod env m s) as [s0|e]; [|rewrite with_loc_SErr in H; discriminate].
+        destruct (IH _ _ _ _ _ _ Hrest H) as [A B]. subst im1. rewrite <- app_assoc. auto.
       * destruct (sk_truthy sk); [|discriminate]. cbn [app]. eapply IH; eassumption.
     + cbn in Hst. discriminate.
 Qed.
@@ -372,22 +373,28 @@ Qed.
 (* ================================================================== *)
 (* frames that hold WITH includes: registry, constants and lock       *)
 (* ================================================================== *)
-Definition frame3 (s s' : tstate) : Prop :=
-  t_reg s' = t_reg s /\ t_consts s' = t_consts s /\ t_locked s' = t_locked s.
-Lemma frame3_refl : forall s, frame3 s s.
-Proof. intros s. repeat split; reflexivity. Qed.
-Lemma frame3_trans : forall a b c, frame3 a b -> frame3 b c -> frame3 a c.
-Proof. intros a b c [A1 [A2 A3]] [B1 [B2 B3]]. repeat split; congruence. Qed.
-Lemma frame3_add_imports : forall l s, frame3 s (add_imports l s).
-Proof. intros l s. repeat split; reflexivity. Qed.
-Lemma bind_frame3 : forall s sc sel arg v l s', bind s sc sel arg v l = SOk s' -> frame3 s s'.
+Definition frame3 (env : fenv) (s s' : tstate) : Prop :=
+  reg_extends env s s' /\ t_consts s' = t_consts s /\ t_locked s' = t_locked s.
+Lemma frame3_refl : forall env s, frame3 env s s.
+Proof. intros env s. split; [apply reg_extends_refl|]. split; reflexivity. Qed.
+Lemma frame3_trans : forall env a b c, frame3 env a b -> frame3 env b c -> frame3 env a c.
 Proof.
-  intros s sc sel arg v l s' H. destruct (bind_ok_frame _ _ _ _ _ _ _ H) as [A [B [_ C]]]. repeat split; assumption.
+  intros env a b c [A1 [A2 A3]] [B1 [B2 B3]]. split; [eapply reg_extends_trans; eassumption|]. split; congruence.
 Qed.
+Lemma frame3_add_imports : forall env l s, frame3 env s (add_imports l s).
+Proof. intros env l s. split; [apply reg_extends_eq; reflexivity|]. split; reflexivity. Qed.
+Lemma frame_gen_frame3 : forall env s s', frame_gen env s s' -> frame3 env s s'.
+Proof. intros env s s' [A [B [_ C]]]. split; [exact A|]. split; assumption. Qed.
+Lemma bind_frame3 : forall env s sc sel arg v l s', bind s sc sel arg v l = SOk s' -> frame3 env s s'.
+Proof. intros env s sc sel arg v l s' H. apply frame_gen_frame3. eapply bind_frame_gen; exact H. Qed.
+(* with side-effect-free imports the registry is untouched *)
+Lemma frame3_pure : forall env s s', pure_imports env -> frame3 env s s' ->
+  t_reg s' = t_reg s /\ t_consts s' = t_consts s /\ t_locked s' = t_locked s.
+Proof. intros env s s' Hp [A [B C]]. split; [apply (reg_extends_pure env s s' Hp A)|]. auto. Qed.
 
 Lemma apply_stmts_frame_inc : forall env sk fname inc stmts s im ic,
-  (forall name s0, frame3 s0 (fst (inc name s0))) ->
-  frame3 s (fst (apply_stmts env sk fname inc stmts s im ic)).
+  (forall name s0, frame3 env s0 (fst (inc name s0))) ->
+  frame3 env s (fst (apply_stmts env sk fname inc stmts s im ic)).
 Proof.
   intros env sk fname inc stmts. induction stmts as [|st rest IH]; intros s im ic Hinc.
   - apply frame3_refl.
@@ -400,22 +407,25 @@ Proof.
         eapply frame3_trans; [eapply bind_frame3; exact Hb|apply IH; exact Hinc].
     + destruct (should_skip s sel sk); [apply IH; exact Hinc|].
       destruct (sm_get_match (to_key sel) (t_reg s)) as [| |k [c|]]; try apply frame3_refl. apply IH; exact Hinc.
-    + destruct (str_in m (e_modules env)); [apply IH; exact Hinc|].
-      destruct (sk_truthy sk); [apply IH; exact Hinc|apply frame3_refl].
+    + destruct (str_in m (e_modules env)).
+      * destruct (register_mod env m s) as [s0|e] eqn:Hreg; [|apply frame3_refl].
+        eapply frame3_trans; [apply frame_gen_frame3; eapply register_mod_frame_gen; exact Hreg|apply IH; exact Hinc].
+      * destruct (sk_truthy sk); [apply IH; exact Hinc|apply frame3_refl].
     + pose proof (Hinc (str_of_value v) s) as F. destruct (inc (str_of_value v) s) as [s0 r0]. cbn [fst] in F.
       destruct r0 as [t|e]; [|exact F].
       eapply frame3_trans; [exact F|apply IH; exact Hinc].
 Qed.
 
-(* parsing -- with any includes, at any fuel, succeeding or failing -- never changes registry, constants or lock *)
+(* parsing -- with any includes, at any fuel, succeeding or failing -- never changes constants or lock, and the
+   registry only grows by what the imported modules register *)
 Theorem parse_tokens_frame : forall fuel env sk fname o pending ts s im ic,
-  frame3 s (fst (parse_tokens fuel env sk fname o pending ts s im ic)).
+  frame3 env s (fst (parse_tokens fuel env sk fname o pending ts s im ic)).
 Proof.
   induction fuel as [|f IH]; intros env sk fname o pending ts s im ic; [apply frame3_refl|].
   rewrite parse_tokens_S.
   destruct (parse_statement o pending ts) as [[[[stmts ts1] p1]|]|e]; [|apply frame3_add_imports|apply frame3_refl].
   destruct (resolve_group s sk fname stmts) as [a|e]; [|apply frame3_refl].
-  assert (Hinc : forall name s0, frame3 s0 (fst (inc_of f env sk name s0))).
+  assert (Hinc : forall name s0, frame3 env s0 (fst (inc_of f env sk name s0))).
   { intros name s0. unfold inc_of. destruct (resolve_file env name) as [[full gf]|]; [|apply frame3_refl].
     destruct (settle (f_tokens gf)) as [ts0|[ln|c]]; try apply frame3_refl.
     pose proof (IH env sk full (f_oracle gf) false ts0 s0 [] []) as F.
@@ -427,13 +437,13 @@ Proof.
   eapply frame3_trans; [exact F|apply IH].
 Qed.
 
-Theorem parse_config_frame : forall env sk fname g s, frame3 s (fst (parse_config env sk fname g s)).
+Theorem parse_config_frame : forall env sk fname g s, frame3 env s (fst (parse_config env sk fname g s)).
 Proof.
   intros env sk fname g s. unfold parse_config.
   destruct (settle (f_tokens g)) as [ts|[ln|c]]; try apply frame3_refl. apply parse_tokens_frame.
 Qed.
 
-Theorem parse_config_file_frame : forall env sk name s, frame3 s (fst (parse_config_file env sk name s)).
+Theorem parse_config_file_frame : forall env sk name s, frame3 env s (fst (parse_config_file env sk name s)).
 Proof.
   intros env sk name s. unfold parse_config_file. destruct (resolve_file env name) as [[full g]|]; [|apply frame3_refl].
   pose proof (parse_config_frame env sk full g s) as F.
@@ -555,7 +565,7 @@ Proof.
   rewrite (C14_entry_stops_at_first_error env sk fs1 f fs2' b' fin' s s1 ts1 s2 e H1 H2). reflexivity.
 Qed.
 
-Lemma parse_files_frame : forall env sk files s, frame3 s (fst (parse_files env sk files s)).
+Lemma parse_files_frame : forall env sk files s, frame3 env s (fst (parse_files env sk files s)).
 Proof.
   intros env sk files. induction files as [|f rest IH]; intros s; [apply frame3_refl|].
   cbn [parse_files]. pose proof (parse_config_file_frame env sk f s) as F.
@@ -566,7 +576,7 @@ Qed.
 
 (* the state just before the finalize step has the lock (registry, constants) of the start state *)
 Lemma entry_frame_no_finalize : forall env s files b sk,
-  frame3 s (fst (run_call2 env s (PFilesBindings files b false sk))).
+  frame3 env s (fst (run_call2 env s (PFilesBindings files b false sk))).
 Proof.
   intros env s files b sk. rewrite C14_files_then_bindings_then_finalize.
   pose proof (parse_files_frame env sk files s) as F.
@@ -579,7 +589,7 @@ Qed.
 (* without finalize the lock is unchanged, whatever happens *)
 Theorem C14_entry_no_finalize_keeps_lock : forall env s files b sk,
   t_locked (fst (run_call2 env s (PFilesBindings files b false sk))) = t_locked s.
-Proof. intros env s files b sk. apply (entry_frame_no_finalize env s files b sk). Qed.
+Proof. intros env s files b sk. destruct (entry_frame_no_finalize env s files b sk) as [_ [_ H]]. exact H. Qed.
 
 (* with finalize: same state as without except for the lock, which is set exactly when everything succeeded *)
 Theorem C14_entry_finalize_locks_iff_ok : forall env s files b sk,
@@ -631,11 +641,12 @@ Proof.
 Qed.
 
 Lemma apply_stmts_unknown_errors : forall env fname inc s0 stmts s im ic,
+  pure_imports env ->
   forallb (fun st => negb (is_include st)) stmts = true ->
   existsb (unknown_target s0) stmts = true -> t_reg s = t_reg s0 ->
   exists e, snd (apply_stmts env SkFalse fname inc stmts s im ic) = SErr e.
 Proof.
-  intros env fname inc s0 stmts. induction stmts as [|st rest IH]; intros s im ic Hn Hu Hreg.
+  intros env fname inc s0 stmts. induction stmts as [|st rest IH]; intros s im ic Hpure Hn Hu Hreg.
   - discriminate.
   - cbn [forallb] in Hn. apply andb_true_iff in Hn. destruct Hn as [Hst Hrest].
     cbn [existsb] in Hu. rewrite <- (unknown_target_reg s0 s st Hreg) in Hu.
@@ -658,16 +669,18 @@ Proof.
       * rewrite (proj2 (get_match_none_matching _ _ _) Em). eexists; reflexivity.
       * destruct (sm_get_match (to_key sel) (t_reg s)) as [| |k' [c|]]; try (eexists; reflexivity).
         apply IH; assumption.
-    + cbn [orb] in Hu. destruct (str_in m (e_modules env)); [apply IH; assumption|]. cbn [sk_truthy].
+    + cbn [orb] in Hu.
+      destruct (str_in m (e_modules env)); [rewrite (register_mod_pure env m s Hpure); apply IH; assumption|].
+      cbn [sk_truthy].
       eexists; reflexivity.
     + cbn in Hst. discriminate.
 Qed.
 
 Lemma consume_unknown_errors : forall env fname s0 gs s im ic,
-  no_includes gs -> has_unknown s0 gs -> t_reg s = t_reg s0 ->
+  pure_imports env -> no_includes gs -> has_unknown s0 gs -> t_reg s = t_reg s0 ->
   exists e, snd (consume env SkFalse fname no_inc gs s im ic) = SErr e.
 Proof.
-  intros env fname s0 gs. induction gs as [|g rest IH]; intros s im ic Hn Hu Hreg.
+  intros env fname s0 gs. induction gs as [|g rest IH]; intros s im ic Hpure Hn Hu Hreg.
   - inversion Hu.
   - inversion Hn as [|g0 r0 Hg Hrest]; subst g0 r0. cbn [consume].
     destruct (resolve_group s SkFalse fname g) as [g'|e] eqn:Hr; [|eexists; reflexivity].
@@ -676,43 +689,46 @@ Proof.
     destruct (apply_stmts env SkFalse fname no_inc g' s im ic) as [s1 r1] eqn:Ha.
     inversion Hu as [g0 r0 Hhead|g0 r0 Htail]; subst g0 r0.
     + rewrite <- (strip_existsb _ (unknown_target_strip s0) g' g (resolve_group_strip _ _ _ _ _ Hr)) in Hhead.
-      destruct (apply_stmts_unknown_errors env fname no_inc s0 g' s im ic Hg' Hhead Hreg) as [e He].
+      destruct (apply_stmts_unknown_errors env fname no_inc s0 g' s im ic Hpure Hg' Hhead Hreg) as [e He].
       rewrite Ha in He. cbn [snd] in He. subst r1. eexists; reflexivity.
     + destruct r1 as [[im1 ic1]|e1]; [|eexists; reflexivity].
       apply IH; try assumption.
-      destruct (apply_stmts_frame _ _ _ _ _ _ _ _ _ _ Hg' Ha) as [B1 _]. congruence.
+      destruct (apply_stmts_frame _ _ _ _ _ _ _ _ _ _ Hpure Hg' Ha) as [B1 _]. congruence.
 Qed.
 
 (* parse_config(text) without skip_unknown: an include-free text with a statement targeting an unknown name never
    succeeds *)
 Theorem C15_parse_tokens_unknown_is_error : forall fuel env fname o pending ts s im ic gs pe,
+  pure_imports env ->
   parse_groups fuel o pending ts = (gs, pe) -> no_includes gs -> has_unknown s gs ->
   exists e, snd (parse_tokens fuel env SkFalse fname o pending ts s im ic) = SErr e.
 Proof.
-  intros fuel env fname o pending ts s im ic gs pe Hpg Hn Hu.
+  intros fuel env fname o pending ts s im ic gs pe Hpure Hpg Hn Hu.
   rewrite (C16_stream_eq_gen _ _ _ _ _ _ _ _ _ _ _ _ Hpg Hn).
-  destruct (consume_unknown_errors env fname s gs s im ic Hn Hu eq_refl) as [e He].
+  destruct (consume_unknown_errors env fname s gs s im ic Hpure Hn Hu eq_refl) as [e He].
   destruct (consume env SkFalse fname no_inc gs s im ic) as [s1 r]. cbn [snd] in He. subst r.
   eexists; reflexivity.
 Qed.
 
 Theorem C15_parse_config_unknown_is_error : forall env fname g s ts gs pe,
+  pure_imports env ->
   settle (f_tokens g) = POk ts -> parse_groups 60 (f_oracle g) false ts = (gs, pe) -> no_includes gs ->
   has_unknown s gs ->
   exists e, snd (parse_config env SkFalse fname g s) = SErr e.
 Proof.
-  intros env fname g s ts gs pe Hset Hpg Hn Hu. unfold parse_config. rewrite Hset.
+  intros env fname g s ts gs pe Hpure Hset Hpg Hn Hu. unfold parse_config. rewrite Hset.
   eapply C15_parse_tokens_unknown_is_error; eassumption.
 Qed.
 
 Theorem C15_parse_config_file_unknown_is_error : forall env name full g s ts gs pe,
+  pure_imports env ->
   resolve_file env name = Some (full, g) ->
   settle (f_tokens g) = POk ts -> parse_groups 60 (f_oracle g) false ts = (gs, pe) -> no_includes gs ->
   has_unknown s gs ->
   exists e, snd (parse_config_file env SkFalse name s) = SErr e.
 Proof.
-  intros env name full g s ts gs pe Hres Hset Hpg Hn Hu. unfold parse_config_file. rewrite Hres.
-  destruct (C15_parse_config_unknown_is_error env full g s ts gs pe Hset Hpg Hn Hu) as [e He].
+  intros env name full g s ts gs pe Hpure Hres Hset Hpg Hn Hu. unfold parse_config_file. rewrite Hres.
+  destruct (C15_parse_config_unknown_is_error env full g s ts gs pe Hpure Hset Hpg Hn Hu) as [e He].
   destruct (parse_config env SkFalse full g s) as [s' r]. cbn [snd] in He. subst r. eexists; reflexivity.
 Qed.
 
@@ -727,31 +743,33 @@ Qed.
 
 (* the multi-file entry point: unknown name in the bindings string (whatever the files did) *)
 Theorem C15_entry_unknown_binding_is_error : forall env s files b fin ts gs pe,
+  pure_imports env ->
   settle (f_tokens b) = POk ts -> parse_groups 60 (f_oracle b) false ts = (gs, pe) -> no_includes gs ->
   has_unknown s gs ->
   exists e, snd (run_call2 env s (PFilesBindings files b fin SkFalse)) = serr_out e.
 Proof.
-  intros env s files b fin ts gs pe Hset Hpg Hn Hu. rewrite C14_files_then_bindings_then_finalize.
+  intros env s files b fin ts gs pe Hpure Hset Hpg Hn Hu. rewrite C14_files_then_bindings_then_finalize.
   pose proof (parse_files_frame env SkFalse files s) as F.
   destruct (parse_files env SkFalse files s) as [s1 r1]. cbn [fst] in F.
   destruct r1 as [trees|e]; [|eexists; reflexivity].
-  destruct (C15_parse_config_unknown_is_error env "" b s1 ts gs pe Hset Hpg Hn
-              (has_unknown_reg s s1 gs (proj1 F) Hu)) as [e He].
+  destruct (C15_parse_config_unknown_is_error env "" b s1 ts gs pe Hpure Hset Hpg Hn
+              (has_unknown_reg s s1 gs (proj1 (frame3_pure env s s1 Hpure F)) Hu)) as [e He].
   destruct (parse_config env SkFalse "" b s1) as [s2 r2]. cbn [snd] in He. subst r2. eexists; reflexivity.
 Qed.
 
 (* ... and in one of the files (the ones before it having succeeded) *)
 Theorem C15_entry_unknown_in_file_is_error : forall env s fs1 f fs2 b fin s1 ts1 full g ts gs pe,
+  pure_imports env ->
   parse_files env SkFalse fs1 s = (s1, SOk ts1) ->
   resolve_file env f = Some (full, g) ->
   settle (f_tokens g) = POk ts -> parse_groups 60 (f_oracle g) false ts = (gs, pe) -> no_includes gs ->
   has_unknown s gs ->
   exists e, snd (run_call2 env s (PFilesBindings (fs1 ++ f :: fs2) b fin SkFalse)) = serr_out e.
 Proof.
-  intros env s fs1 f fs2 b fin s1 ts1 full g ts gs pe H1 Hres Hset Hpg Hn Hu.
+  intros env s fs1 f fs2 b fin s1 ts1 full g ts gs pe Hpure H1 Hres Hset Hpg Hn Hu.
   pose proof (parse_files_frame env SkFalse fs1 s) as F. rewrite H1 in F. cbn [fst] in F.
-  destruct (C15_parse_config_file_unknown_is_error env f full g s1 ts gs pe Hres Hset Hpg Hn
-              (has_unknown_reg s s1 gs (proj1 F) Hu)) as [e He].
+  destruct (C15_parse_config_file_unknown_is_error env f full g s1 ts gs pe Hpure Hres Hset Hpg Hn
+              (has_unknown_reg s s1 gs (proj1 (frame3_pure env s s1 Hpure F)) Hu)) as [e He].
   destruct (parse_config_file env SkFalse f s1) as [s2 r2] eqn:Hp. cbn [snd] in He. subst r2.
   rewrite (C14_entry_stops_at_first_error env SkFalse fs1 f fs2 b fin s s1 ts1 s2 e H1 Hp).
   eexists; reflexivity.
@@ -771,11 +789,42 @@ Proof.
   rewrite consume_app, H1. cbn [consume]. rewrite Hr, apply_stmts_app, Hp, Hf. reflexivity.
 Qed.
 
-(* the first statement that targets an unknown configurable: the parse fails with ValueError located at that
-   statement, and the state is exactly the one reached by the groups before it and the statements before it in its
-   own group (e.g. the members of a block before it) *)
+(* the first statement that targets a configurable that is unknown WHEN THE STATEMENT IS REACHED (imports before it
+   may have registered names): the parse fails with ValueError located at that statement, and the state is exactly the
+   one reached by the groups before it and the statements before it in its own group *)
+Theorem C15_first_unknown_is_ValueError_at_point : forall env fname gf s ts gs1 g gs3 pe pre sc sel arg v line post
+                                                          s0 im0 ic0 s1 im1 ic1,
+  settle (f_tokens gf) = POk ts ->
+  parse_groups 60 (f_oracle gf) false ts = (gs1 ++ g :: gs3, pe) -> no_includes (gs1 ++ g :: gs3) ->
+  consume env SkFalse fname no_inc gs1 s [] [] = (s0, SOk (im0, ic0)) ->
+  resolve_group s0 SkFalse fname g = SOk (pre ++ SBind sc sel arg v line :: post) ->
+  apply_stmts env SkFalse fname no_inc pre s0 im0 ic0 = (s1, SOk (im1, ic1)) ->
+  arg <> "" -> sm_matching (to_key sel) (t_reg s1) = [] -> t_locked s = false ->
+  parse_config env SkFalse fname gf s = (s1, SErr (SEOther "ValueError" [(fname, line)])).
+Proof.
+  intros env fname gf s ts gs1 g gs3 pe pre sc sel arg v line post s0 im0 ic0 s1 im1 ic1
+         Hset Hpg Hn H1 Hr Hp Harg Hm Hl.
+  unfold parse_config. rewrite Hset. rewrite (C16_stream_eq_gen _ _ _ _ _ _ _ _ _ _ _ _ Hpg Hn).
+  unfold no_includes in Hn. apply Forall_app in Hn. destruct Hn as [Hn1 Hn2].
+  inversion Hn2 as [|g0 r0 Hg Hn3]; subst g0 r0.
+  destruct (consume_frame_gen _ _ _ _ _ _ _ _ _ _ Hn1 H1) as [_ [_ [_ A4]]].
+  assert (Hpre : forallb (fun st => negb (is_include st)) pre = true).
+  { pose proof (resolve_group_noinc _ _ _ _ _ Hr) as E. rewrite Hg in E. rewrite forallb_app in E.
+    apply andb_true_iff in E. apply E. }
+  destruct (apply_stmts_frame_gen _ _ _ _ _ _ _ _ _ _ Hpre Hp) as [_ [_ [_ B4]]].
+  rewrite (consume_fails_at env SkFalse fname gs1 g gs3 pre (SBind sc sel arg v line) post s [] [] s0 im0 ic0
+             s1 im1 ic1 (SEOther "ValueError" [(fname, line)]) H1 Hr Hp); [reflexivity|].
+  apply C15_uncovered_unknown_errors_exact.
+  - exact Harg.
+  - apply C15_skip_false.
+  - apply get_match_none_matching. exact Hm.
+  - congruence.
+Qed.
+
+(* with side-effect-free imports "unknown" can be read off the start state *)
 Theorem C15_first_unknown_is_ValueError : forall env fname gf s ts gs1 g gs3 pe pre sc sel arg v line post
                                                  s0 im0 ic0 s1 im1 ic1,
+  pure_imports env ->
   settle (f_tokens gf) = POk ts ->
   parse_groups 60 (f_oracle gf) false ts = (gs1 ++ g :: gs3, pe) -> no_includes (gs1 ++ g :: gs3) ->
   consume env SkFalse fname no_inc gs1 s [] [] = (s0, SOk (im0, ic0)) ->
@@ -785,27 +834,40 @@ Theorem C15_first_unknown_is_ValueError : forall env fname gf s ts gs1 g gs3 pe 
   parse_config env SkFalse fname gf s = (s1, SErr (SEOther "ValueError" [(fname, line)])).
 Proof.
   intros env fname gf s ts gs1 g gs3 pe pre sc sel arg v line post s0 im0 ic0 s1 im1 ic1
-         Hset Hpg Hn H1 Hr Hp Harg Hm Hl.
-  unfold parse_config. rewrite Hset. rewrite (C16_stream_eq_gen _ _ _ _ _ _ _ _ _ _ _ _ Hpg Hn).
-  unfold no_includes in Hn. apply Forall_app in Hn. destruct Hn as [Hn1 Hn2].
+         Hpure Hset Hpg Hn H1 Hr Hp Harg Hm Hl.
+  eapply C15_first_unknown_is_ValueError_at_point; try eassumption.
+  pose proof Hn as Hn'. unfold no_includes in Hn'. apply Forall_app in Hn'. destruct Hn' as [Hn1 Hn2].
   inversion Hn2 as [|g0 r0 Hg Hn3]; subst g0 r0.
-  destruct (consume_frame _ _ _ _ _ _ _ _ _ _ Hn1 H1) as [A1 [_ [_ A4]]].
+  destruct (consume_frame _ _ _ _ _ _ _ _ _ _ Hpure Hn1 H1) as [A1 _].
   assert (Hpre : forallb (fun st => negb (is_include st)) pre = true).
   { pose proof (resolve_group_noinc _ _ _ _ _ Hr) as E. rewrite Hg in E. rewrite forallb_app in E.
     apply andb_true_iff in E. apply E. }
-  destruct (apply_stmts_frame _ _ _ _ _ _ _ _ _ _ Hpre Hp) as [B1 [_ [_ B4]]].
-  rewrite (consume_fails_at env SkFalse fname gs1 g gs3 pre (SBind sc sel arg v line) post s [] [] s0 im0 ic0
-             s1 im1 ic1 (SEOther "ValueError" [(fname, line)]) H1 Hr Hp); [reflexivity|].
-  apply C15_uncovered_unknown_errors_exact.
-  - exact Harg.
-  - apply C15_skip_false.
-  - apply get_match_none_matching. congruence.
-  - congruence.
+  destruct (apply_stmts_frame _ _ _ _ _ _ _ _ _ _ Hpure Hpre Hp) as [B1 _]. congruence.
 Qed.
 
 (* the same for an unknown block header (no lock condition: a block header binds nothing) *)
+Theorem C15_first_unknown_block_is_ValueError_at_point : forall env fname gf s ts gs1 g gs3 pe pre sc sel line post
+                                                       s0 im0 ic0 s1 im1 ic1,
+  settle (f_tokens gf) = POk ts ->
+  parse_groups 60 (f_oracle gf) false ts = (gs1 ++ g :: gs3, pe) -> no_includes (gs1 ++ g :: gs3) ->
+  consume env SkFalse fname no_inc gs1 s [] [] = (s0, SOk (im0, ic0)) ->
+  resolve_group s0 SkFalse fname g = SOk (pre ++ SBlock sc sel line :: post) ->
+  apply_stmts env SkFalse fname no_inc pre s0 im0 ic0 = (s1, SOk (im1, ic1)) ->
+  sm_matching (to_key sel) (t_reg s1) = [] ->
+  parse_config env SkFalse fname gf s = (s1, SErr (SEOther "ValueError" [(fname, line)])).
+Proof.
+  intros env fname gf s ts gs1 g gs3 pe pre sc sel line post s0 im0 ic0 s1 im1 ic1 Hset Hpg Hn H1 Hr Hp Hm.
+  unfold parse_config. rewrite Hset. rewrite (C16_stream_eq_gen _ _ _ _ _ _ _ _ _ _ _ _ Hpg Hn).
+  rewrite (consume_fails_at env SkFalse fname gs1 g gs3 pre (SBlock sc sel line) post s [] [] s0 im0 ic0
+             s1 im1 ic1 (SEOther "ValueError" [(fname, line)]) H1 Hr Hp); [reflexivity|].
+  apply C15_uncovered_unknown_block_errors.
+  - apply C15_skip_false.
+  - apply get_match_none_matching. exact Hm.
+Qed.
+
 Theorem C15_first_unknown_block_is_ValueError : forall env fname gf s ts gs1 g gs3 pe pre sc sel line post
                                                        s0 im0 ic0 s1 im1 ic1,
+  pure_imports env ->
   settle (f_tokens gf) = POk ts ->
   parse_groups 60 (f_oracle gf) false ts = (gs1 ++ g :: gs3, pe) -> no_includes (gs1 ++ g :: gs3) ->
   consume env SkFalse fname no_inc gs1 s [] [] = (s0, SOk (im0, ic0)) ->
@@ -814,20 +876,15 @@ Theorem C15_first_unknown_block_is_ValueError : forall env fname gf s ts gs1 g g
   sm_matching (to_key sel) (t_reg s) = [] ->
   parse_config env SkFalse fname gf s = (s1, SErr (SEOther "ValueError" [(fname, line)])).
 Proof.
-  intros env fname gf s ts gs1 g gs3 pe pre sc sel line post s0 im0 ic0 s1 im1 ic1 Hset Hpg Hn H1 Hr Hp Hm.
-  unfold parse_config. rewrite Hset. rewrite (C16_stream_eq_gen _ _ _ _ _ _ _ _ _ _ _ _ Hpg Hn).
-  unfold no_includes in Hn. apply Forall_app in Hn. destruct Hn as [Hn1 Hn2].
+  intros env fname gf s ts gs1 g gs3 pe pre sc sel line post s0 im0 ic0 s1 im1 ic1 Hpure Hset Hpg Hn H1 Hr Hp Hm.
+  eapply C15_first_unknown_block_is_ValueError_at_point; try eassumption.
+  pose proof Hn as Hn'. unfold no_includes in Hn'. apply Forall_app in Hn'. destruct Hn' as [Hn1 Hn2].
   inversion Hn2 as [|g0 r0 Hg Hn3]; subst g0 r0.
-  destruct (consume_frame _ _ _ _ _ _ _ _ _ _ Hn1 H1) as [A1 _].
+  destruct (consume_frame _ _ _ _ _ _ _ _ _ _ Hpure Hn1 H1) as [A1 _].
   assert (Hpre : forallb (fun st => negb (is_include st)) pre = true).
   { pose proof (resolve_group_noinc _ _ _ _ _ Hr) as E. rewrite Hg in E. rewrite forallb_app in E.
     apply andb_true_iff in E. apply E. }
-  destruct (apply_stmts_frame _ _ _ _ _ _ _ _ _ _ Hpre Hp) as [B1 _].
-  rewrite (consume_fails_at env SkFalse fname gs1 g gs3 pre (SBlock sc sel line) post s [] [] s0 im0 ic0
-             s1 im1 ic1 (SEOther "ValueError" [(fname, line)]) H1 Hr Hp); [reflexivity|].
-  apply C15_uncovered_unknown_block_errors.
-  - apply C15_skip_false.
-  - apply get_match_none_matching. congruence.
+  destruct (apply_stmts_frame _ _ _ _ _ _ _ _ _ _ Hpure Hpre Hp) as [B1 _]. congruence.
 Qed.
 
 (* ================================================================== *)
@@ -930,7 +987,7 @@ Module C14DeepExample.
   Definition f_b : gfile := {| f_tokens := bind_line 1 "x" "9" ++ [tk ENDMARKER "" 2 0 0]; f_oracle := orc |}.
   Definition env : fenv :=
     {| e_files := [((0, "main.gin"), f_main); ((0, "a.gin"), f_a); ((0, "b.gin"), f_b); ((0, "c.gin"), f_c)];
-       e_readers := [0]; e_prefixes := [""]; e_modules := [] |}.
+       e_readers := [0]; e_prefixes := [""]; e_modules := []; e_mod_regs := [] |}.
   Definition gs_main : list (list stmt) :=
     [[SBind "" "f" "x" (OZ 1) 1]; [SInclude (OT "str" [OS "a.gin"]) 2];
      [SBind "" "f" "y" (OZ 3) 3]; [SInclude (OT "str" [OS "b.gin"]) 4]].
@@ -991,6 +1048,8 @@ Print Assumptions C15_parse_config_unknown_is_error.
 Print Assumptions C15_parse_config_file_unknown_is_error.
 Print Assumptions C15_entry_unknown_binding_is_error.
 Print Assumptions C15_entry_unknown_in_file_is_error.
+Print Assumptions C15_first_unknown_is_ValueError_at_point.
+Print Assumptions C15_first_unknown_block_is_ValueError_at_point.
 Print Assumptions C15_first_unknown_is_ValueError.
 Print Assumptions C15_first_unknown_block_is_ValueError.
 Print Assumptions parse_statement_shape.
